@@ -77,7 +77,8 @@ func urlKey(u string) string {
 	return "?" + u
 }
 
-var serials = map[string]int64{"R": 1, "CA1": 2, "CA2": 3, "X": 4, "L1": 7, "L2": 8, "K1": 9, "M1": 7, "U1": 11, "U2": 12, "N1": 13}
+// serial numbers whose decimal, hexadecimal and byte renderings all differ; M1 has the serial of L1 under another issuer
+var serials = map[string]int64{"R": 1001, "CA1": 1002, "CA2": 1003, "X": 1004, "L1": 1007, "L2": 1008, "K1": 1009, "M1": 1007, "U1": 1011, "U2": 1012, "N1": 1013}
 var caNotAfter = map[string]time.Duration{"CA2": 2*time.Hour + 30*time.Minute}
 
 type world struct {
@@ -147,7 +148,7 @@ func newWorld(cat catalogue) (*world, error) {
 		k, _ := ecdsa.GenerateKey(elliptic.P256(), rand.Reader)
 		tpl := *w.certs[ca]
 		tpl.PublicKey = &k.PublicKey
-		tpl.SubjectKeyId = []byte{9, 9, 9, byte(serials[ca])}
+		tpl.SubjectKeyId = []byte{9, 9, 9, byte(serials[ca] % 251)}
 		w.shadow[ca], w.shadowK[ca] = &tpl, k
 	}
 	_, w.dlKey, _ = ed25519.GenerateKey(rand.Reader)
@@ -184,7 +185,7 @@ func (w *world) makeCert(name string, ca bool) error {
 		Subject:      pkix.Name{CommonName: name, Organization: []string{"x06"}},
 		NotBefore:    T0.Add(-48 * time.Hour), NotAfter: notAfter,
 		BasicConstraintsValid: true, IsCA: ca,
-		SubjectKeyId: []byte{1, 2, 3, byte(serials[name]), byte(len(name)), name[0]},
+		SubjectKeyId: []byte{1, 2, 3, byte(serials[name] % 251), byte(len(name)), name[0], name[len(name)-1]},
 	}
 	if ca {
 		tpl.KeyUsage = x509.KeyUsageCertSign | x509.KeyUsageCRLSign
@@ -314,7 +315,7 @@ func (w *world) denylist(id string) ([]byte, error) {
 		entries = append(entries,
 			dlEntry{Issuer: m1.Issuer.String(), SerialNumber: l1.SerialNumber.String(), JWKThumbprint: pki.VerifX06Thumbprint(l1), Reason: "near miss: issuer"},
 			dlEntry{Issuer: l2.Issuer.String(), SerialNumber: l2.SerialNumber.String(), JWKThumbprint: pki.VerifX06Thumbprint(l1), Reason: "near miss: thumbprint"},
-			dlEntry{Issuer: l2.Issuer.String(), SerialNumber: "80", JWKThumbprint: pki.VerifX06Thumbprint(l2), Reason: "near miss: serial"})
+			dlEntry{Issuer: l2.Issuer.String(), SerialNumber: "3f0", JWKThumbprint: pki.VerifX06Thumbprint(l2), Reason: "near miss: serial"})
 	}
 	for _, c := range o.Ban {
 		cert := w.certs[c]
@@ -414,9 +415,7 @@ func goid() int64 {
 }
 
 // goroutine states in which a goroutine cannot go on by itself
-var parked = map[string]bool{"chan receive": true, "chan send": true, "select": true, "semacquire": true, "sync.WaitGroup.Wait": true,
-	"sync.Mutex.Lock": true, "sync.RWMutex.Lock": true, "sync.RWMutex.RLock": true, "sync.Cond.Wait": true, "IO wait": true,
-	"chan receive (nil chan)": true, "select (no cases)": true}
+var parked = map[string]bool{"chan receive": true, "semacquire": true, "sync.WaitGroup.Wait": true}
 
 // settle waits until no goroutine other than the caller is RUNNING code of the repository or of this driver: every such
 // goroutine is parked (at a gate, in WaitGroup.Wait, ...) or gone. It is the "the released goroutine has done all it can
@@ -427,6 +426,10 @@ func settle(giveUp time.Duration) error {
 	buf := make([]byte, 1<<20)
 	for {
 		n := runtime.Stack(buf, true)
+		for n == len(buf) {
+			buf = make([]byte, 2*len(buf))
+			n = runtime.Stack(buf, true)
+		}
 		active := ""
 		for _, g := range strings.Split(string(buf[:n]), "\n\n") {
 			nl := strings.IndexByte(g, '\n')
@@ -444,8 +447,11 @@ func settle(giveUp time.Duration) error {
 			if !strings.Contains(body, "nuts-foundation/nuts-node/") && !strings.Contains(body, "drivers/pkicrl.") {
 				continue
 			}
+			// at rest = waiting at one of the driver's gates, or sync() waiting for its goroutines; a goroutine that is parked
+			// anywhere else (a library waiting for a helper goroutine, a mutex) is on its way
 			state := strings.TrimSpace(strings.SplitN(strings.Trim(strings.Join(f[2:], " "), "[]:"), ",", 2)[0])
-			if !parked[state] {
+			atRest := parked[state] && (strings.Contains(body, "pkicrl.(*gates).block") || strings.Contains(body, "sync.(*WaitGroup).Wait"))
+			if !atRest {
 				active = head
 			}
 		}
